@@ -218,8 +218,8 @@ func c13BadBase64(val string) []string {
 	add(val + "==")
 	add("=" + val)
 	if raw, err := base64.RawStdEncoding.DecodeString(val); err == nil {
-		add(base64.StdEncoding.EncodeToString(raw))                             // correct padding
-		add(base64.RawURLEncoding.EncodeToString(raw))                          // URL alphabet
+		add(base64.StdEncoding.EncodeToString(raw))                                 // correct padding
+		add(base64.RawURLEncoding.EncodeToString(raw))                              // URL alphabet
 		add(base64.StdEncoding.EncodeToString(append(append([]byte{}, raw...), 0))) // padded, other length
 	}
 	for pos := 0; pos <= len(val); pos++ {
@@ -402,8 +402,11 @@ func c13ValidPercent(s string) bool {
 
 // c13StatusMutants: the semantic malformations of the status trio, applied to a
 // list of lines; used for both the gRPC-Web block and HTTP trailers.
-func c13StatusMutants(e c13Err, yield func(class, where string, ls []c13Line)) {
-	base := c13Lines(c13RefTrailerPairs(e, false, true))
+func c13StatusMutants(e c13Err, withBin bool, yield func(class, where string, ls []c13Line)) {
+	if !withBin {
+		e.Details = nil // no grpc-status-details-bin: nothing else can draw feedback by accident
+	}
+	base := c13Lines(c13RefTrailerPairs(e, false, withBin))
 	idx := func(k string) int {
 		for i, l := range base {
 			if l.K == k {
@@ -455,6 +458,18 @@ func c13StatusMutants(e c13Err, yield func(class, where string, ls []c13Line)) {
 		yield("grpc-message-duplicated", fmt.Sprintf("copy before line %d", at), insert(at, base[im]))
 	}
 
+	// OK status that still carries an error
+	okAny := []*anypb.Any{c13MustAny(c13Detail("empty"))}
+	yield("ok-status-with-message", "", []c13Line{{"grpc-status", "0"}, {"grpc-message", "foo"}})
+	yield("ok-status-with-details", "", []c13Line{{"grpc-status", "0"}, {"grpc-status-details-bin", c13StatusBin(0, "", okAny)}})
+	// binary metadata
+	for _, v := range []string{"*", "a", "YQ=", "YQ==", "YWI=", "a-_b", "aGVsbG8 aGVsbG8", "=", "YQ==YQ"} {
+		yield("bad-base64:binary-metadata", fmt.Sprintf("x-c13-bin=%q", v), insert(len(base), c13Line{"x-c13-bin", v}))
+	}
+	if !withBin {
+		return
+	}
+
 	bin := base[id].V
 	for pos := 0; pos <= len(bin); pos += 1 + len(bin)/40 {
 		for _, ch := range []string{"*", "-", "_", "\x00", "%", "."} {
@@ -496,27 +511,22 @@ func c13StatusMutants(e c13Err, yield func(class, where string, ls []c13Line)) {
 	for at := 0; at <= len(base); at++ {
 		yield("details-bin-duplicated", fmt.Sprintf("copy before line %d", at), insert(at, base[id]))
 	}
-	// OK status that still carries an error
-	okAny := []*anypb.Any{c13MustAny(c13Detail("empty"))}
-	yield("ok-status-with-message", "", []c13Line{{"grpc-status", "0"}, {"grpc-message", "foo"}})
-	yield("ok-status-with-details", "", []c13Line{{"grpc-status", "0"}, {"grpc-status-details-bin", c13StatusBin(0, "", okAny)}})
-	// binary metadata
-	for _, v := range []string{"*", "a", "YQ=", "YQ==", "YWI=", "a-_b", "aGVsbG8 aGVsbG8", "=", "YQ==YQ"} {
-		yield("bad-base64:binary-metadata", fmt.Sprintf("x-c13-bin=%q", v), insert(len(base), c13Line{"x-c13-bin", v}))
-	}
 }
 
 func c13TrailerMutants(e c13Err, yield func(*c13Case)) {
 	origin := e.String()
 	// (a) semantic, through the block and through an HTTP trailer set
-	c13StatusMutants(e, func(class, where string, ls []c13Line) {
-		yield(&c13Case{Phase: "malformed", Format: "grpc-web-trailers", Class: class, Expect: "feedback", Input: []byte(c13RenderLines(ls)), Origin: origin + " @ " + where})
-		h := http.Header{}
-		for _, l := range ls {
-			h.Add(l.K, l.V)
-		}
-		yield(&c13Case{Phase: "malformed", Format: "grpc-trailers", Class: class, Expect: "feedback", Hdr: c13HVOf(h), Origin: origin + " @ " + where})
-	})
+	for _, withBin := range []bool{false, true} {
+		tag := map[bool]string{false: " (no details-bin) @ ", true: " (with details-bin) @ "}[withBin]
+		c13StatusMutants(e, withBin, func(class, where string, ls []c13Line) {
+			yield(&c13Case{Phase: "malformed", Format: "grpc-web-trailers", Class: class, Expect: "feedback", Input: []byte(c13RenderLines(ls)), Origin: origin + tag + where})
+			h := http.Header{}
+			for _, l := range ls {
+				h.Add(l.K, l.V)
+			}
+			yield(&c13Case{Phase: "malformed", Format: "grpc-trailers", Class: class, Expect: "feedback", Hdr: c13HVOf(h), Origin: origin + tag + where})
+		})
+	}
 	// (b) syntactic, block only
 	base := c13Lines(c13RefTrailerPairs(e, false, false))
 	emit := func(class, where, text string) {
